@@ -4,12 +4,25 @@
 use crate::report::CaseCtx;
 
 pub mod common;
+pub mod c15;
+pub mod c13;
+pub mod c17;
+pub mod c16;
+pub mod c18;
+pub mod c08;
+pub mod c06;
+pub mod c05;
+pub mod c04;
 pub mod c01;
 pub mod c02;
 pub mod c03;
 pub mod c07;
 pub mod c09;
 pub mod c10;
+pub mod c11;
+pub mod c12;
+pub mod c14;
+pub mod c19;
 
 pub type Monitor = fn(&mut CaseCtx);
 
@@ -21,6 +34,19 @@ pub fn lookup(id: &str) -> Option<Monitor> {
         "C07" => c07::case,
         "C09" => c09::case,
         "C10" => c10::case,
+        "C11" => c11::case,
+        "C12" => c12::case,
+        "C14" => c14::case,
+        "C19" => c19::case,
+        "C04" => c04::case,
+        "C05" => c05::case,
+        "C06" => c06::case,
+        "C08" => c08::case,
+        "C18" => c18::case,
+        "C16" => c16::case,
+        "C17" => c17::case,
+        "C13" => c13::case,
+        "C15" => c15::case,
         _ => return None,
     })
 }
